@@ -365,6 +365,12 @@ FastForward
 // fastForward is used whilst in CatchingUp state to reset the underlying
 // hashgraph from a Block and associated Frame.
 func (c *core) fastForward(block *hg.Block, frame *hg.Frame) error {
+	// The Block and Frame come from the network: make sure they can be
+	// handled at all before looking at their content.
+	if err := checkFastForwardInput(block, frame); err != nil {
+		return err
+	}
+
 	c.logger.Debug("Fast Forward", frame.Round)
 	peerSet := peers.NewPeerSet(frame.Peers)
 
@@ -397,6 +403,58 @@ func (c *core) fastForward(block *hg.Block, frame *hg.Frame) error {
 	// Update peer-selector and validators
 	c.setPeers(peers.NewPeerSet(frame.Peers))
 	c.validators = peers.NewPeerSet(frame.Peers)
+
+	return nil
+}
+
+// checkFastForwardInput rejects Blocks and Frames with missing elements (null
+// peers, events, roots, or events without two parent entries), which the JSON
+// transport lets through and which would otherwise be dereferenced.
+func checkFastForwardInput(block *hg.Block, frame *hg.Frame) error {
+	if block == nil || frame == nil {
+		return fmt.Errorf("Missing Block or Frame")
+	}
+
+	for _, p := range frame.Peers {
+		if p == nil {
+			return fmt.Errorf("Frame contains a null Peer")
+		}
+	}
+
+	for _, ps := range frame.PeerSets {
+		for _, p := range ps {
+			if p == nil {
+				return fmt.Errorf("Frame PeerSets contain a null Peer")
+			}
+		}
+	}
+
+	checkFrameEvent := func(fe *hg.FrameEvent) error {
+		if fe == nil || fe.Core == nil {
+			return fmt.Errorf("Frame contains a null Event")
+		}
+		if len(fe.Core.Body.Parents) != 2 {
+			return fmt.Errorf("Frame contains an Event without two parent entries")
+		}
+		return nil
+	}
+
+	for _, fe := range frame.Events {
+		if err := checkFrameEvent(fe); err != nil {
+			return err
+		}
+	}
+
+	for _, root := range frame.Roots {
+		if root == nil {
+			return fmt.Errorf("Frame contains a null Root")
+		}
+		for _, fe := range root.Events {
+			if err := checkFrameEvent(fe); err != nil {
+				return err
+			}
+		}
+	}
 
 	return nil
 }
